@@ -169,6 +169,28 @@ class _Transformer(ast.NodeTransformer):
         pairs = ast.List(elts=[ast.Tuple(elts=[k, v], ctx=ast.Load()) for k, v in zip(node.keys, node.values)], ctx=ast.Load())
         return ast.copy_location(ast.Call(func=ast.Name(id="__pyvc_dict__", ctx=ast.Load()), args=[pairs], keywords=[]), node)
 
+    def visit_DictComp(self, node):
+        self.generic_visit(node)
+        if not self.dicts or len(node.generators) != 1 or node.generators[0].is_async:
+            return node
+        g = node.generators[0]
+        # {K: V for T in IT if C}  ->  __pyvc_dictcomp__(IT, lambda T: (K, V, C))     (same meaning on ordinary iterables)
+        names = [n.id for n in ast.walk(g.target) if isinstance(n, ast.Name)]
+        cond = ast.BoolOp(op=ast.And(), values=list(g.ifs)) if len(g.ifs) > 1 else (g.ifs[0] if g.ifs else ast.Constant(True))
+        if isinstance(g.target, ast.Name):
+            args = ast.arguments(posonlyargs=[], args=[ast.arg(arg=g.target.id)], kwonlyargs=[], kw_defaults=[], defaults=[])
+            body = ast.Tuple(elts=[node.key, node.value, cond], ctx=ast.Load())
+            lam = ast.Lambda(args=args, body=body)
+        else:
+            # tuple target: lambda __t: (lambda a, b: (K, V, C))(*__t)
+            inner = ast.Lambda(args=ast.arguments(posonlyargs=[], args=[ast.arg(arg=n) for n in names], kwonlyargs=[], kw_defaults=[], defaults=[]),
+                               body=ast.Tuple(elts=[node.key, node.value, cond], ctx=ast.Load()))
+            if not (isinstance(g.target, ast.Tuple) and all(isinstance(e, ast.Name) for e in g.target.elts)):
+                return node
+            lam = ast.Lambda(args=ast.arguments(posonlyargs=[], args=[ast.arg(arg="__pyvc_t")], kwonlyargs=[], kw_defaults=[], defaults=[]),
+                             body=ast.Call(func=inner, args=[ast.Starred(value=ast.Name(id="__pyvc_t", ctx=ast.Load()), ctx=ast.Load())], keywords=[]))
+        return ast.copy_location(ast.Call(func=ast.Name(id="__pyvc_dictcomp__", ctx=ast.Load()), args=[g.iter, lam], keywords=[]), node)
+
     def visit_Call(self, node):
         self.generic_visit(node)
         f = node.func
@@ -301,6 +323,7 @@ class instrumented:
             f.__globals__["__pyvc_loop__"] = __pyvc_loop__
             f.__globals__["__pyvc_dict__"] = containers.mkdict
             f.__globals__["__pyvc_join__"] = containers.bytes_join
+            f.__globals__["__pyvc_dictcomp__"] = containers.dictcomp
             for o, cls in loops.items():
                 _SPECS["%s#%d" % (fkey, o)] = cls
         return self
